@@ -68,6 +68,8 @@ def run(check: Check) -> None:
         for k2 in ([101] + list(range(101)) if k in cut else [101]):
             for w in range(4):
                 native("quote_in_python", k, k2, w, __SHARD__=k % 4, __K2LO__=0)
+    for i, j, w in itertools.product(range(14), range(14), range(3)):
+        native("quote_pairs", i, j, w, __SHARD__=i)
     for q, wrap in itertools.product(range(2), range(2)):
         for cs in itertools.product(range(14), repeat=3):
             native("pylit", q, cs[0], cs[1], cs[2], 13, wrap, __SHARD__=cs[0], __C3LO__=13, __C2LO__=0)
@@ -105,7 +107,7 @@ def run(check: Check) -> None:
         "ws_formula": [{"SHARD": k, "S": (1 if thorough else 0)} for k in range(12)],
         "quote_name": [{"N": N}], "quote_name_factor": [0, 1, 2, 3], "quote_name_known": [0, 1], "quote_python": [{"N": N}],
         "spans": [{"N": N}],
-        "pynorm": list(range(10)), "pystr": [None], "quote_in_python": [{"SHARD": k, "K2LO": 101} for k in range(4)], "pylit": [{"SHARD": k, "C2LO": (0 if thorough else 13), "C3LO": 13} for k in range(14)],
+        "pynorm": list(range(10)), "pystr": [None], "quote_in_python": [{"SHARD": k, "K2LO": 101} for k in range(4)], "quote_pairs": list(range(14)) if thorough else [0, 3, 5, 8, 10], "pylit": [{"SHARD": k, "C2LO": (0 if thorough else 13), "C3LO": 13} for k in range(14)],
     }
     for f in fns:
         check.functions.add(f"harness.ch_c15:{f}")
